@@ -2,3 +2,5 @@
 import Strengths.Driver.All
 import Strengths.Props.C06
 import Strengths.Props.C14
+import Strengths.Props.C07
+import Strengths.Props.C02
